@@ -344,6 +344,258 @@ fn headline(rng: &mut Rng, env: &Env, sents: &[String]) -> String {
     s
 }
 
+// =================================================================================================
+// w25 additions: the remaining call site of `make_title_case` (`patterns::IsNotTitleCase`), the four
+// clauses under another dictionary configuration (a `MergedDictionary` of the curated one and a
+// user dictionary, as harper-ls / harper-wasm / harper-cli build it), and input families no
+// generator wrote (very long texts and words, astral letters, emoji next to letters, characters
+// whose upper / lower case has another length). All oracle-only.
+// =================================================================================================
+
+/// inner pattern of the `IsNotTitleCase` stream: matches the first `n` tokens
+struct W25Prefix(usize);
+
+impl harper_core::patterns::Pattern for W25Prefix {
+    fn matches(&self, tokens: &[Token], _source: &[char]) -> usize {
+        self.0.min(tokens.len())
+    }
+}
+
+/// `IsNotTitleCase` (harper-core/src/patterns/is_not_title_case.rs) wraps a pattern and matches
+/// its match iff `make_title_case` of the matched tokens is not the matched text. At this call
+/// site the property says: (a) the pattern's answer is the function's answer on exactly the matched
+/// tokens; (b) a title-cased text is never flagged again (clause 4, idempotence).
+fn w25_eval_pattern(sess: &mut Session, env: &Env, text: &str, prefix: Option<usize>) {
+    use harper_core::patterns::{IsNotTitleCase, Pattern};
+    let src: Vec<char> = text.chars().collect();
+    let Ok(doc) = guarded(|| Document::new(text, &PlainEnglish, env.dict.as_ref())) else { return };
+    let toks = doc.get_tokens();
+    let n = prefix.map(|k| k.min(toks.len())).unwrap_or(toks.len());
+    if n == 0 {
+        return;
+    }
+    let input = json!({"text": text, "markdown": false, "w25": "IsNotTitleCase", "prefix": prefix});
+    // a panic of the function itself is `eval_o`'s business
+    let Ok(tc) = guarded(|| make_title_case(&toks[..n], &src, env.dict.as_ref())) else { return };
+    let content = &src[toks[0].span.start.min(src.len())..toks[n - 1].span.end.min(src.len())];
+    sess.o();
+    sess.count(if prefix.is_some() { "w25:IsNotTitleCase:prefix-of-the-tokens" } else { "w25:IsNotTitleCase:all-tokens" });
+    let pat = IsNotTitleCase::new(Box::new(W25Prefix(n)), env.dict.clone());
+    match guarded(|| pat.matches(toks, &src)) {
+        Err(m) => {
+            sess.fail("pattern-panic", format!("IsNotTitleCase::matches panicked: {}", trunc(&m, 200)), input, None);
+            return;
+        }
+        Ok(got) => {
+            let want = if tc.as_slice() != content { n } else { 0 };
+            sess.count(if want == 0 { "w25:IsNotTitleCase:already-title-case" } else { "w25:IsNotTitleCase:not-title-case" });
+            if got != want {
+                sess.fail("pattern-is-not-title-case-differs", format!("IsNotTitleCase over the first {} tokens matched {} tokens, but make_title_case of those tokens is {:?} and the text is {:?} (expected {})", n, got, show(&tc), show(content), want), input, None);
+                return;
+            }
+        }
+    }
+    if prefix.is_none() && !text.contains('\n') && !text.contains('\r') {
+        let Ok(out_s) = guarded(|| make_title_case_str(text, &PlainEnglish, env.dict.as_ref())) else { return };
+        let out: Vec<char> = out_s.chars().collect();
+        let Ok(doc2) = guarded(|| Document::new(&out_s, &PlainEnglish, env.dict.as_ref())) else { return };
+        let toks2 = doc2.get_tokens();
+        let pat2 = IsNotTitleCase::new(Box::new(W25Prefix(toks2.len())), env.dict.clone());
+        sess.o();
+        if let Ok(got) = guarded(|| pat2.matches(toks2, &out)) {
+            if got != 0 {
+                sess.fail("pattern-flags-title-cased-text", format!("IsNotTitleCase flags {:?}, which is the title case of {:?}", out_s, text), input, None);
+            }
+        }
+    }
+}
+
+const W25_USER_PLAIN: &[&str] = &["zqxv", "Teh", "iphone", "MICROSOFT", "o'reilly", "it’s", "zqxv's"];
+const W25_USER_PROPER: &[&str] = &["ZqxvCorp", "McZqxv's", "O’Zqxv", "zqxvLand", "ZQXV-x"];
+
+/// the curated dictionary, then a user dictionary (the order harper-ls, harper-wasm and harper-cli use)
+fn w25_merged_dict() -> harper_core::MergedDictionary {
+    let mut user = harper_core::MutableDictionary::new();
+    for w in W25_USER_PLAIN {
+        user.append_word_str(w, harper_core::WordMetadata::default());
+    }
+    for w in W25_USER_PROPER {
+        let md = harper_core::WordMetadata { noun: Some(harper_core::NounData { is_proper: Some(true), ..Default::default() }), ..Default::default() };
+        user.append_word_str(w, md);
+    }
+    let mut m = harper_core::MergedDictionary::new();
+    m.add_dictionary(FstDictionary::curated());
+    m.add_dictionary(Arc::new(user));
+    m
+}
+
+/// the four clauses of the statement on `make_title_case_str(text, &PlainEnglish, dict)` for any dictionary
+fn w25_eval_o_dict<D: Dictionary>(sess: &mut Session, dict: &D, tag: &str, text: &str) {
+    let input = json!({"text": text, "markdown": false, "w25": tag});
+    let src: Vec<char> = text.chars().collect();
+    sess.o();
+    sess.count(&format!("w25:dictionary:{}", tag));
+    let out_s = match guarded(|| make_title_case_str(text, &PlainEnglish, dict)) {
+        Ok(s) => s,
+        Err(m) => {
+            sess.fail(&format!("{}-panic", tag), format!("make_title_case_str panicked: {}", trunc(&m, 200)), input, None);
+            return;
+        }
+    };
+    let out: Vec<char> = out_s.chars().collect();
+    let Ok(doc) = guarded(|| Document::new(text, &PlainEnglish, dict)) else { return };
+    // (start, stop, word-like, proper noun with a canonical spelling)
+    let toks: Vec<(usize, usize, bool, bool)> = doc
+        .get_tokens()
+        .iter()
+        .map(|t| {
+            let proper = matches!(&t.kind, TokenKind::Word(Some(md)) if md.is_proper_noun()) && dict.get_correct_capitalization_of(t.span.get_content(&src)).is_some();
+            (t.span.start, t.span.end, t.kind.is_word_like(), proper)
+        })
+        .collect();
+    if toks.iter().any(|t| t.3) {
+        sess.count(&format!("w25:dictionary:{}:with-proper-noun", tag));
+    }
+    if out.len() != src.len() {
+        sess.fail(&format!("{}-length-changed", tag), format!("{} chars in, {} chars out: {:?}", src.len(), out.len(), out_s), input, None);
+        return;
+    }
+    for i in 0..src.len() {
+        if same_modulo_case(src[i], out[i]) {
+            continue;
+        }
+        if toks.iter().any(|t| t.3 && t.0 <= i && i < t.1) && is_apostrophe_like(src[i]) && is_apostrophe_like(out[i]) {
+            continue;
+        }
+        sess.fail(&format!("{}-not-only-case", tag), format!("char {} {:?} became {:?}: {:?}", i, src[i], out[i], out_s), input, None);
+        return;
+    }
+    if let Some(w) = toks.iter().find(|t| t.2) {
+        if w.0 < src.len() && src[w.0].is_ascii_alphabetic() && !out[w.0].is_uppercase() {
+            sess.fail(&format!("{}-first-not-upper", tag), format!("first word-like token starts with {:?} in {:?}", out[w.0], out_s), input, None);
+            return;
+        }
+    }
+    if out != src {
+        sess.nontrivial(&format!("w25|{}|{}", tag, text));
+    }
+    match guarded(|| make_title_case_str(&out_s, &PlainEnglish, dict)) {
+        Ok(a) if a == out_s => {}
+        Ok(a) => sess.fail(&format!("{}-not-idempotent", tag), format!("title case {:?}, title case of that {:?}", out_s, a), input, None),
+        Err(m) => sess.fail(&format!("{}-panic", tag), format!("second make_title_case_str panicked: {}", trunc(&m, 200)), input, None),
+    }
+}
+
+/// the input dimensions the quantifier names, counted on the texts the oracle sees
+fn w25_dims(sess: &mut Session, text: &str) {
+    let cs: Vec<char> = text.chars().collect();
+    for (tag, on) in [
+        ("punctuation", cs.iter().any(|c| c.is_ascii_punctuation() && *c != '-' && *c != '\'')),
+        ("digits", cs.iter().any(|c| c.is_ascii_digit())),
+        ("hyphen-between-letters", cs.windows(3).any(|w| w[1] == '-' && w[0].is_alphabetic() && w[2].is_alphabetic())),
+        ("apostrophe-straight-or-curly", cs.iter().any(|c| is_apostrophe_like(*c))),
+        ("non-ascii-letter", cs.iter().any(|c| !c.is_ascii() && c.is_alphabetic())),
+        ("astral-character", cs.iter().any(|c| *c as u32 > 0xFFFF)),
+        ("combining-or-invisible", cs.iter().any(|c| matches!(*c, '\u{300}'..='\u{36f}' | '\u{200b}'..='\u{200d}' | '\u{ad}' | '\u{feff}'))),
+        ("fullwidth", cs.iter().any(|c| matches!(*c, '\u{ff01}'..='\u{ff5e}'))),
+        ("case-mapping-of-other-length(ß ŉ ǆ ﬁ İ)", cs.iter().any(|c| c.to_uppercase().count() != 1 || c.to_lowercase().count() != 1)),
+        ("starts-with-non-word", cs.first().is_some_and(|c| !c.is_alphanumeric())),
+        ("empty-or-blank", text.trim().is_empty()),
+        ("over-1000-chars", cs.len() > 1000),
+        ("word-over-100-chars", text.split_whitespace().any(|w| w.chars().count() > 100)),
+    ] {
+        if on {
+            sess.count(&format!("w25:dim:{}", tag));
+        }
+    }
+}
+
+/// texts no generator above writes
+fn w25_families(rng: &mut Rng, env: &Env, sents: &[String], thorough: bool) -> Vec<String> {
+    let mut v: Vec<String> = vec![
+        "\t".into(), "   ".into(), "\u{a0}the\u{a0}end".into(), "\u{feff}the end".into(),
+        "𝐛𝐨𝐥𝐝 words and 𝓈cript of the day".into(), "the 𝐛𝐨𝐥𝐝 and the 😀of it".into(), "😀the end".into(), "the👩‍👩‍👧family of it".into(),
+        "ǆ and ǅ and ŉ and ß and ﬁ of the İ".into(), "ŉ the end".into(), "ǆungla of the ǅ".into(), "ﬁrst of the ﬂoor".into(),
+        "e\u{301}cole of the e\u{301}".into(), "the a\u{30a}ngstro\u{308}m of it".into(),
+        "中文 of the 한국어 and the العربية".into(), "the ٣ of ½ and ²".into(), "１st of the ２nd".into(),
+        "a-b-c-d-e-f of-the-and".into(), "the---of".into(), "mother-in-law's of the o'clock".into(),
+        "10,000 of 3.14 and 1e5 or 0x1F at 5%".into(), "$5 for the #1 of @home".into(),
+        format!("the {} of it", "pneumono".repeat(80)), "a ".repeat(600), format!("{}the", " ".repeat(500)),
+    ];
+    for _ in 0..(if thorough { 400 } else { 40 }) {
+        // a very long headline: 20–60 headlines in a row (one line)
+        let n = rng.range(20, 60);
+        v.push((0..n).map(|_| headline(rng, env, sents)).collect::<Vec<_>>().join(" "));
+    }
+    for _ in 0..(if thorough { 2000 } else { 300 }) {
+        // an odd character glued to / put between the words of a headline
+        let odd = *rng.pick(&["😀", "𝐛", "ǆ", "ǅ", "ŉ", "ﬁ", "İ", "ı", "\u{301}", "\u{200d}", "\u{a0}", "\u{feff}", "½", "٣", "中", "１", "ａ", "Ａ", "ſ", "K"]);
+        let h = headline(rng, env, sents);
+        let cs: Vec<char> = h.chars().collect();
+        let at = if cs.is_empty() { 0 } else { rng.below(cs.len() + 1) };
+        let mut t: String = cs[..at].iter().collect();
+        t.push_str(odd);
+        t.extend(cs[at..].iter());
+        v.push(t);
+    }
+    v
+}
+
+/// all w25 streams
+fn w25_run(sess: &mut Session, env: &Env, rng: &mut Rng, sents: &[String], corpus: &[String], thorough: bool) {
+    let merged = w25_merged_dict();
+    let fam = w25_families(rng, env, sents, thorough);
+    for t in &fam {
+        w25_dims(sess, t);
+        eval(sess, env, t, "w25-families");
+    }
+    let mut texts: Vec<String> = corpus.to_vec();
+    texts.extend(fam.iter().filter(|t| t.chars().count() < 400).cloned());
+    for t in [
+        "the zqxvcorp of mczqxv's and o'zqxv", "ZQXVCORP", "zqxvcorp", "o’zqxv and O'ZQXV", "zqxvland and teh iphone of microsoft", "the zqxv-x of o＇zqxv",
+        "o'reilly and it’s zqxv's", "MCZQXV’S of the ZQXVLAND", "“zqxvcorp” of the (zqxvland)", "the zqxvx of mczqxvs", "ZQXVX and ozqxv",
+    ] {
+        texts.push(t.to_string());
+    }
+    for _ in 0..(if thorough { 20000 } else { 2500 }) {
+        let mut h = headline(rng, env, sents);
+        if rng.chance(1, 3) {
+            let w = if rng.chance(1, 2) { rng.pick(W25_USER_PROPER).to_string() } else { rng.pick(W25_USER_PLAIN).to_string() };
+            let w = match rng.below(6) {
+                0 => w.to_lowercase(),
+                1 => w.to_uppercase(),
+                2 => w.replace('\'', "’").replace('’', if rng.chance(1, 2) { "'" } else { "’" }),
+                // the user's word written closed up: without its hyphen / apostrophe (another word, unknown to the dictionary)
+                3 => w.replace('-', "").to_lowercase(),
+                4 => w.replace(['\'', '’'], ""),
+                _ => w,
+            };
+            h = if rng.chance(1, 2) { format!("{} {}", w, h) } else { format!("{} {}", h, w) };
+        }
+        texts.push(h);
+    }
+    for (i, t) in texts.iter().enumerate() {
+        if t.contains('\n') || t.contains('\r') {
+            continue;
+        }
+        w25_eval_o_dict(sess, &merged, "merged-dictionary", t);
+        w25_eval_pattern(sess, env, t, None);
+        if i % 2 == 0 {
+            let ntok = Document::new(t, &PlainEnglish, env.dict.as_ref()).get_tokens().len();
+            if ntok > 1 {
+                w25_eval_pattern(sess, env, t, Some(rng.range(1, ntok)));
+            }
+        }
+    }
+}
+
+const W25_CORPUS: &[&str] = &[
+    "this is a test", "the first and last words should be capitalized, even if it is \"the\"", "0 about 0", "|", "\ta", "videopress", "united states", "", " ", "a", "the",
+    "THE OF AND", "of mice and men", "iphone and IPAD for the o'reilly book", "o’reilly’s McDonald’s mcdonald's", "the wordpress of the iPhone", "straße İstanbul café ß é İ",
+    "state-of-the-art x-ray", "1st 2ND 3rd 1980s", "e.g. this i.e. that U.S. a.m.", "  leading and trailing  ", "don't DON’T it’s", "WAR AND PEACE", "...and then", "“quoted” and ‘single’",
+    "a survey by tyson et al. on grammar", "A Survey by Tyson Et al. on Grammar", "This Is a Test", "The Quick Brown Fox", "\"the quick brown fox\"",
+];
+
 pub fn run(ctx: &Ctx) {
     let mut sess = Session::new(ctx);
     let mut rng = Rng::new(ctx.seed);
@@ -352,6 +604,18 @@ pub fn run(ctx: &Ctx) {
     if let Some(v) = replay_input(ctx) {
         let text = v["text"].as_str().unwrap_or("").to_string();
         let markdown = v["markdown"].as_bool().unwrap_or(false);
+        if let Some(kind) = v["w25"].as_str() {
+            // w25 replay kinds: the IsNotTitleCase call site, the merged-dictionary configuration
+            if kind == "IsNotTitleCase" {
+                w25_eval_pattern(&mut sess, &env, &text, v["prefix"].as_u64().map(|k| k as usize));
+            } else {
+                w25_eval_o_dict(&mut sess, &w25_merged_dict(), kind, &text);
+            }
+            sess.nontrivial("replay-a");
+            sess.nontrivial("replay-b");
+            sess.finish("replay of one recorded input (w25 stream)", false, json!({}));
+            return;
+        }
         let slice = v.get("slice").and_then(|s| Some((s.get(0)?.as_u64()? as usize, s.get(1)?.as_u64()? as usize)));
         let case = eval_k(&mut sess, &env, &text, markdown, slice, "replay");
         if !markdown && slice.is_none() {
@@ -503,6 +767,7 @@ pub fn run(ctx: &Ctx) {
         if n < 3 {
             sess.sample(json!({"text": t, "title": make_title_case_str(&t, &PlainEnglish, env.dict.as_ref())}));
         }
+        w25_dims(&mut sess, &t);
         eval(&mut sess, &env, &t, "random");
         if n % 5 == 0 {
             // K only: Markdown tokens (do not cover the text), and sub-slices of the token list
@@ -514,6 +779,12 @@ pub fn run(ctx: &Ctx) {
                 eval_k(&mut sess, &env, &t, false, Some((lo, hi)), "random");
             }
         }
+    }
+    // w25: IsNotTitleCase, merged dictionary, new families
+    {
+        let mut r2 = Rng::new(ctx.seed ^ 0x2518);
+        let corpus: Vec<String> = W25_CORPUS.iter().map(|s| s.to_string()).collect();
+        w25_run(&mut sess, &env, &mut r2, &sents, &corpus, ctx.tier == Tier::Thorough);
     }
     let extra = json!({
         "exhaustive_scope": format!("texts of ≤{} pieces over a 13-piece vocabulary", maxlen),
